@@ -40,7 +40,9 @@ import (
 )
 
 type knownFuncs struct {
-	Functions map[string][]string `json:"functions"`
+	Provenance string              `json:"provenance"`
+	Functions  map[string][]string `json:"functions"`
+	Types      map[string][]string `json:"types"`
 }
 
 func loadKnownFuncs(verif string) map[string]map[string]bool {
@@ -57,6 +59,15 @@ func loadKnownFuncs(verif string) map[string]map[string]bool {
 		out[dir] = map[string]bool{}
 		for _, f := range fs {
 			out[dir][f] = true
+		}
+	}
+	// named types are recorded in the same per-package set as "type <Name>"
+	for dir, ts := range k.Types {
+		if out[dir] == nil {
+			out[dir] = map[string]bool{}
+		}
+		for _, t := range ts {
+			out[dir]["type "+t] = true
 		}
 	}
 	return out
@@ -585,7 +596,7 @@ func (in *inliner) tryExprInline(ce *ast.CallExpr, file *ast.File) ast.Expr {
 		}
 		a := arg
 		at := in.pkg.TypesInfo.TypeOf(arg)
-		if at == nil || !types.Identical(at, param.Type()) {
+		if at == nil || in.pkg.TypesInfo.Types[arg].Value != nil || in.pkg.TypesInfo.Types[arg].IsNil() || !types.Identical(at, param.Type()) {
 			te, ok := in.typeExpr(param.Type(), file)
 			if !ok {
 				return false
@@ -818,7 +829,9 @@ func (in *inliner) expandCallMode(ce *ast.CallExpr, file *ast.File, depth int, s
 		}
 		a := cloneAST(arg).(ast.Expr)
 		at := in.pkg.TypesInfo.TypeOf(arg)
-		if at == nil || !types.Identical(at, pt) {
+		// constants (possibly untyped) and nil take the parameter's type explicitly
+		isConst := in.pkg.TypesInfo.Types[arg].Value != nil || in.pkg.TypesInfo.Types[arg].IsNil()
+		if at == nil || isConst || !types.Identical(at, pt) {
 			te, tok := in.typeExpr(pt, file)
 			if !tok {
 				return false
@@ -1065,6 +1078,7 @@ func (in *inliner) processStmt(s ast.Stmt, file *ast.File, depth int) []ast.Stmt
 		}
 		return out
 	}
+	var pre []ast.Stmt
 	switch x := s.(type) {
 	case *ast.ExprStmt:
 		if ce := asCall(x.X); ce != nil {
@@ -1121,20 +1135,13 @@ func (in *inliner) processStmt(s ast.Stmt, file *ast.File, depth int) []ast.Stmt
 						c = &ast.UnaryExpr{Op: token.NOT, X: c}
 					}
 					x.Cond = c
-					x.Body.List = in.processList(x.Body.List, file, depth)
-					if x.Else != nil {
-						r := in.processStmt(x.Else, file, depth)
-						if len(r) == 1 {
-							x.Else = r[0]
-						} else {
-							x.Else = &ast.BlockStmt{List: r}
-						}
-					}
-					return append(st, x)
+					pre = append(pre, st...)
 				}
 			}
 		}
 	}
+	// calls nested deeper in the statement's expressions
+	pre = append(pre, in.hoistStmt(s, file, depth)...)
 	// recurse into nested statement lists (tracking the lexical scopes)
 	p1 := in.push(s)
 	defer in.pop(p1)
@@ -1182,7 +1189,283 @@ func (in *inliner) processStmt(s ast.Stmt, file *ast.File, depth int) []ast.Stmt
 			x.Stmt = &ast.BlockStmt{List: r}
 		}
 	}
-	return []ast.Stmt{s}
+	return append(pre, s)
+}
+
+// hoistStmt hoists inlinable single-result calls out of the expressions of a
+// simple statement (they are expanded in front of it and replaced by their
+// result variable).  Calls are taken strictly in evaluation order and the
+// hoisting stops at the first call, receive or conditionally evaluated operand
+// that cannot be moved, so the order of all calls is preserved; operands that
+// stay behind are plain reads of variables the hoisted call does not receive
+// a pointer to.
+func (in *inliner) hoistStmt(s ast.Stmt, file *ast.File, depth int) []ast.Stmt {
+	h := &hoister{in: in, file: file, depth: depth, reads: map[string]bool{}}
+	switch x := s.(type) {
+	case *ast.ExprStmt:
+		h.walk(&x.X)
+	case *ast.AssignStmt:
+		if x.Tok != token.ASSIGN && x.Tok != token.DEFINE {
+			return nil
+		}
+		for _, l := range x.Lhs {
+			if !h.pureReads(l) {
+				return nil
+			}
+		}
+		for i := range x.Rhs {
+			if !h.walk(&x.Rhs[i]) {
+				break
+			}
+		}
+	case *ast.ReturnStmt:
+		for i := range x.Results {
+			if !h.walk(&x.Results[i]) {
+				break
+			}
+		}
+	case *ast.IfStmt:
+		if x.Init == nil {
+			h.walk(&x.Cond)
+		}
+	case *ast.SwitchStmt:
+		if x.Init == nil && x.Tag != nil {
+			h.walk(&x.Tag)
+		}
+	case *ast.SendStmt:
+		if h.walk(&x.Chan) {
+			h.walk(&x.Value)
+		}
+	case *ast.DeclStmt:
+		if gd, ok := x.Decl.(*ast.GenDecl); ok && gd.Tok == token.VAR && len(gd.Specs) == 1 {
+			if vs, ok := gd.Specs[0].(*ast.ValueSpec); ok {
+				for i := range vs.Values {
+					if !h.walk(&vs.Values[i]) {
+						break
+					}
+				}
+			}
+		}
+	}
+	return h.pre
+}
+
+type hoister struct {
+	in    *inliner
+	file  *ast.File
+	depth int
+	pre   []ast.Stmt
+	reads map[string]bool // identifiers read by operands that stay in the statement
+}
+
+// pureReads: e consists of identifiers, selectors, indexing, dereferences and
+// literals only; its identifiers are recorded as reads.
+func (h *hoister) pureReads(e ast.Expr) bool {
+	ok := true
+	ast.Inspect(e, func(n ast.Node) bool {
+		switch x := n.(type) {
+		case *ast.CallExpr, *ast.FuncLit, *ast.CompositeLit:
+			ok = false
+		case *ast.UnaryExpr:
+			if x.Op == token.ARROW {
+				ok = false
+			}
+		case *ast.SelectorExpr:
+			// the selected name is not a variable read
+			ast.Inspect(x.X, func(m ast.Node) bool {
+				if id, isID := m.(*ast.Ident); isID {
+					h.reads[id.Name] = true
+				}
+				return true
+			})
+			if !h.pureReads(x.X) {
+				ok = false
+			}
+			return false
+		case *ast.Ident:
+			h.reads[x.Name] = true
+		}
+		return ok
+	})
+	return ok
+}
+
+// hasEvent: e contains a call (other than a conversion or a pure builtin) or a receive.
+func (h *hoister) hasEvent(e ast.Expr) bool {
+	found := false
+	ast.Inspect(e, func(n ast.Node) bool {
+		switch x := n.(type) {
+		case *ast.FuncLit:
+			return false
+		case *ast.UnaryExpr:
+			if x.Op == token.ARROW {
+				found = true
+			}
+		case *ast.CallExpr:
+			if !h.isConversion(x) && !h.isPureBuiltin(x) {
+				found = true
+			}
+		}
+		return !found
+	})
+	return found
+}
+
+func (h *hoister) isConversion(ce *ast.CallExpr) bool {
+	tv, ok := h.in.pkg.TypesInfo.Types[ce.Fun]
+	return ok && tv.IsType()
+}
+
+func (h *hoister) isPureBuiltin(ce *ast.CallExpr) bool {
+	fun := ce.Fun
+	if p, ok := fun.(*ast.ParenExpr); ok {
+		fun = p.X
+	}
+	id, ok := fun.(*ast.Ident)
+	if !ok {
+		return false
+	}
+	if _, isB := h.in.pkg.TypesInfo.Uses[id].(*types.Builtin); !isB {
+		return false
+	}
+	switch id.Name {
+	case "len", "cap", "min", "max", "real", "imag", "complex":
+		return true
+	}
+	return false
+}
+
+// walk visits *slot in evaluation order; it returns false when hoisting must stop.
+func (h *hoister) walk(slot *ast.Expr) bool {
+	switch x := (*slot).(type) {
+	case nil:
+		return true
+	case *ast.Ident:
+		h.reads[x.Name] = true
+		return true
+	case *ast.BasicLit, *ast.FuncLit:
+		return true
+	case *ast.ParenExpr:
+		return h.walk(&x.X)
+	case *ast.SelectorExpr:
+		return h.walk(&x.X)
+	case *ast.StarExpr:
+		return h.walk(&x.X)
+	case *ast.TypeAssertExpr:
+		return h.walk(&x.X)
+	case *ast.UnaryExpr:
+		if x.Op == token.ARROW {
+			return false
+		}
+		return h.walk(&x.X)
+	case *ast.BinaryExpr:
+		if x.Op == token.LAND || x.Op == token.LOR {
+			if !h.walk(&x.X) {
+				return false
+			}
+			if h.hasEvent(x.Y) {
+				return false // conditionally evaluated
+			}
+			return h.pureReads(x.Y)
+		}
+		return h.walk(&x.X) && h.walk(&x.Y)
+	case *ast.IndexExpr:
+		return h.walk(&x.X) && h.walk(&x.Index)
+	case *ast.SliceExpr:
+		return h.walk(&x.X) && h.walk(&x.Low) && h.walk(&x.High) && h.walk(&x.Max)
+	case *ast.KeyValueExpr:
+		return h.walk(&x.Value)
+	case *ast.CompositeLit:
+		_, isStruct := typeUnder(h.in.pkg.TypesInfo.TypeOf(x)).(*types.Struct)
+		for i := range x.Elts {
+			if kv, ok := x.Elts[i].(*ast.KeyValueExpr); ok {
+				if !isStruct && !h.walk(&kv.Key) {
+					return false
+				}
+				if !h.walk(&kv.Value) {
+					return false
+				}
+				continue
+			}
+			if !h.walk(&x.Elts[i]) {
+				return false
+			}
+		}
+		return true
+	case *ast.CallExpr:
+		if h.isConversion(x) || h.isPureBuiltin(x) {
+			for i := range x.Args {
+				if !h.walk(&x.Args[i]) {
+					return false
+				}
+			}
+			return true
+		}
+		snap := map[string]bool{}
+		for k := range h.reads {
+			snap[k] = true
+		}
+		// operands of the call: receiver, then arguments
+		if sel, ok := x.Fun.(*ast.SelectorExpr); ok {
+			if !h.walk(&sel.X) {
+				return false
+			}
+		} else if _, ok := x.Fun.(*ast.Ident); !ok {
+			return false
+		}
+		for i := range x.Args {
+			if !h.walk(&x.Args[i]) {
+				return false
+			}
+		}
+		tg := h.in.targetOf(x)
+		if tg == nil || tg.sig.Results().Len() != 1 {
+			return false
+		}
+		// the call must not be able to change what earlier operands (left behind) read
+		conflict := false
+		mention := func(e ast.Expr) {
+			ast.Inspect(e, func(n ast.Node) bool {
+				if id, ok := n.(*ast.Ident); ok && snap[id.Name] {
+					conflict = true
+				}
+				return true
+			})
+		}
+		if sel, ok := x.Fun.(*ast.SelectorExpr); ok && tg.fn != nil && tg.sig.Recv() != nil {
+			mention(sel.X)
+		}
+		for i, a := range x.Args {
+			if i < tg.sig.Params().Len() {
+				switch typeUnder(tg.sig.Params().At(i).Type()).(type) {
+				case *types.Pointer, *types.Slice, *types.Map, *types.Chan, *types.Signature, *types.Interface:
+					mention(a)
+				}
+			}
+		}
+		if tg.clo != nil && len(snap) > 0 {
+			conflict = true // a closure may change any captured variable
+		}
+		if conflict {
+			return false
+		}
+		st, res, ok := h.in.expandCall(x, h.file, h.depth, map[*types.Func]bool{})
+		if !ok || len(res) != 1 {
+			return false
+		}
+		h.pre = append(h.pre, st...)
+		*slot = ident(res[0])
+		h.reads = snap
+		return true
+	}
+	return false
+}
+
+func typeUnder(t types.Type) types.Type {
+	if t == nil {
+		return nil
+	}
+	return t.Underlying()
 }
 
 // findClosures: `name := func(...) {...}` in fd whose variable is used only as
